@@ -294,6 +294,8 @@ class C09:
             return False
         except KeyboardInterrupt:
             return True
+        except BaseException as e:  # noqa  a stale handler of a finished command blew up instead
+            return "raises-" + type(e).__name__
 
     def liveness_probe(self):
         self.ctx.pop("probe", None)
@@ -475,9 +477,9 @@ class C09:
             viol("UNFINISHED-JOB-LEFT-IN-TABLE", race="both", before=pre["unfinished_foreground_jobs"], after=s1["unfinished_foreground_jobs"])
         if s1["sigmask"] != pre["sigmask"]:
             viol("SIGNAL-MASK-CHANGED", before=pre["sigmask"], after=s1["sigmask"])
-        if int0 and not int1:
-            viol("SIGINT-NO-LONGER-INTERRUPTS/" + ("after-ctrl-c" if interrupt else "no-ctrl-c"), race="capture")
-        elif int1:
+        if int0 is True and int1 is not True:
+            viol(("SIGINT-NO-LONGER-INTERRUPTS/" if int1 is False else f"SIGINT-{int1}/") + ("after-ctrl-c" if interrupt else "no-ctrl-c"), race="capture")
+        elif int1 is True:
             rec.count("sigint_probes_ok")
         if live != "ok":
             viol("SESSION-" + live.upper().replace(":", "-"), race="both")
